@@ -41,10 +41,17 @@ func (c *gcase) render() any {
 		"mutation": c.Mut, "note": c.Note,
 		"block_hash": hex.EncodeToString(c.Hash[:]), "chain_id": c.ChainID,
 		"auxpow_wire": hex.EncodeToString(c.P.wire()),
-		"script":      hex.EncodeToString(c.P.Coinbase.In[0].Script),
+		"script":      hex.EncodeToString(firstScript(&c.P)),
 		"aux_height":  len(c.P.AuxBranch), "aux_index": c.P.AuxIndex,
 		"par_height": len(c.P.ParBranch), "par_index": c.P.ParIndex,
 	}
+}
+
+func firstScript(p *proof) []byte {
+	if len(p.Coinbase.In) == 0 {
+		return nil
+	}
+	return p.Coinbase.In[0].Script
 }
 
 func genHash(t *rapid.T, label string) h256 {
@@ -106,6 +113,7 @@ var mutations = []string{
 	// marker placements (rapid favours the front of the list)
 	"nibble-shift", "two-markers", "gap", "truncate-tail", "phantom-marker", "root-before-marker",
 	"marker-corrupt", "no-marker", "earlier-root", "earlier-root-nibble", "script-in-second-input",
+	"no-input", "tall-branch",
 	// committed fields
 	"hash-flip", "chainid", "auxindex", "auxbranch-flip", "auxbranch-len", "size", "nonce",
 	"parroot-flip", "parindex-low", "parbranch-flip", "coinbase-tamper", "script-tamper-after-seal",
@@ -275,12 +283,24 @@ func genCase(t *rapid.T) *gcase {
 		assemble()
 	case "script-in-second-input":
 		junkInput = true
+	case "tall-branch":
+		// 32+ levels: 2^h does not fit the size field (size written as the wrapped value 0, or 1)
+		for n := rapid.IntRange(32, 40).Draw(t, "tallHeight"); len(branch) < n; {
+			branch = append(branch, genHash(t, "auxSibling"))
+		}
+		size = uint32(rapid.IntRange(0, 1).Draw(t, "wrappedSize"))
+		index = uint32(rapid.IntRange(0, 1).Draw(t, "tallIndex")) * index
+		rr = rootOf()
+		assemble()
 	}
 	// ---- parent coinbase
 	cb := coinbaseTx{Version: int32(rapid.Uint32().Draw(t, "cbVersion")), LockTime: rapid.Uint32().Draw(t, "lockTime")}
 	nin := rapid.IntRange(1, 3).Draw(t, "nIn") // 0 inputs panics in Check (C03): excluded by construction
 	if junkInput && nin < 2 {
 		nin = 2
+	}
+	if c.Mut == "no-input" {
+		nin = 0 // the commitment script has nowhere to live
 	}
 	for i := 0; i < nin; i++ {
 		in := txIn{PrevHash: genHash(t, "prev"), PrevIndex: rapid.Uint32().Draw(t, "prevIndex"), Sequence: rapid.Uint32().Draw(t, "sequence")}
@@ -514,7 +534,7 @@ func TestFixtures(t *testing.T) {
 func buildFuzzProof(pre, mid, post, hashSeed []byte, height uint8, index, chainID uint32, flags uint8) *gcase {
 	c := &gcase{Mut: "fuzz", ChainID: chainID & 0x7fffffff}
 	c.Hash = sha256d(hashSeed)
-	h := int(height % 32)
+	h := int(height % 41)
 	branch := make([]h256, h)
 	for i := range branch {
 		branch[i] = sha256d(append([]byte{byte(i)}, hashSeed...))
@@ -600,6 +620,17 @@ func TestConcrete(t *testing.T) {
 		cases = append(cases, concrete(fmt.Sprintf("concrete/tail-%d-bytes", keep), hash,
 			func(rr h256) []byte { return cat(marker, rr[:], tail[:keep]) }))
 	}
+	// proofs made by the node's own generator (what its miner attaches): accepted for
+	// their block hash, refused for any other
+	for i := 0; i < 16; i++ {
+		hash := sha256d([]byte{'g', 'e', 'n', byte(i)})
+		p := fromAuxPow(auxpow.GenerateAuxPow(common.Uint256(hash)))
+		p.Header.Time = 1537000000 + uint32(i) // GenerateAuxPow stamps the wall clock; not committed
+		cases = append(cases, &gcase{P: p, Hash: hash, ChainID: realChainID, Mut: fmt.Sprintf("concrete/node-generated-%d", i)})
+		other := hash
+		other[i] ^= 0x40
+		cases = append(cases, &gcase{P: p, Hash: other, ChainID: realChainID, Mut: fmt.Sprintf("concrete/node-generated-%d-other-block", i)})
+	}
 	for _, c := range cases {
 		c := c
 		t.Run(c.Mut, func(t *testing.T) {
@@ -626,7 +657,7 @@ func TestScriptLayout(t *testing.T) {
 		}),
 	)
 	rapid.Check(t, func(t *rapid.T) {
-		height := uint8(rapid.IntRange(0, 31).Draw(t, "height"))
+		height := uint8(rapid.IntRange(0, 40).Draw(t, "height"))
 		if rapid.Bool().Draw(t, "low") {
 			height %= 4
 		}
